@@ -1,6 +1,7 @@
 package props
 
 import (
+	"strings"
 	"bytes"
 	"context"
 	"fmt"
@@ -87,7 +88,7 @@ func splitAtHeight(calls []call, h int64) int {
 
 func TestC13_Restart(t *testing.T) {
 	rec := recorder("C13")
-	rec.AddRule("(a) apphist history H (one chain in six initialised in dev mode); the real PersistToDisk is called after the Commit of a generated height s; a second application is loaded with LoadShutterAppFromFile, must report height s from Info, and replays the calls after s; oracle: responses of every replayed call byte-equal (Log/Info excluded) and final state equal (nil and empty containers identified) to the uninterrupted run; non-trivial = s < last height and the state at s holds votes or DKG instances; (b) crash during save: a helper process saves state X over an existing file holding state Y under RLIMIT_FSIZE=L for byte lengths L of the encoding and exits without clean-up; afterwards the file must load and equal Y (L < size) or X (L >= size)")
+	rec.AddRule("(a) apphist history H (one chain in six initialised in dev mode; one in six aimed at configuration voting rounds with refused single-defect proposals that are proposed again); the real PersistToDisk is called after the Commit of a generated height s; a second application is loaded with LoadShutterAppFromFile, must report height s from Info, and replays the calls after s; oracle: responses of every replayed call byte-equal (Log/Info excluded) and final state equal (nil and empty containers identified) to the uninterrupted run; non-trivial = s < last height and the state at s holds votes or DKG instances; (b) crash during save: a helper process saves state X over an existing file holding state Y under RLIMIT_FSIZE=L for byte lengths L of the encoding and exits without clean-up; afterwards the file must load and equal Y (L < size) or X (L >= size)")
 	dir := t.TempDir()
 	old := app.PersistMinDuration
 	app.PersistMinDuration = 1000 * time.Hour
@@ -97,11 +98,24 @@ func TestC13_Restart(t *testing.T) {
 		fail := func(sig, f string, a ...any) { fatalf(rt, sig, f, a...) }
 		// what a restart can lose is whatever is derived rather than stored: the validator hand-over and
 		// late check-ins exercise most of that, so most histories aim there
-		g, calls, c := recordHistory(rt, 6, 70, fail, "validators", "validators", "validators", "", "dkg")
+		g, calls, c := recordHistory(rt, 6, 70, fail, "validators", "validators", "validators", "", "dkg", "configs")
 		if c.Height < 1 {
 			rt.Skip("no block")
 		}
 		s := int64(rapid.IntRange(1, int(c.Height)).Draw(rt, "saveHeight"))
+		// half of the time, when there is one: save right behind a block in which a refused (off-pool)
+		// configuration proposal was delivered - what such a proposal left behind is saved and reloaded
+		var afterRefused []int64
+		for _, cl := range calls {
+			if cl.Kind == 'D' && strings.Contains(cl.Tag, "cfgX") && cl.H >= 1 && cl.H < c.Height && (len(afterRefused) == 0 || afterRefused[len(afterRefused)-1] != cl.H) {
+				afterRefused = append(afterRefused, cl.H)
+			}
+		}
+		aimedSave := false
+		if len(afterRefused) > 0 && rapid.Bool().Draw(rt, "saveAfterRefused") {
+			s = rapid.SampledFrom(afterRefused).Draw(rt, "saveHeightAimed")
+			aimedSave = true
+		}
 		cut := splitAtHeight(calls, s)
 		if cut < 0 {
 			fail("harness", "no end of block %d", s)
@@ -162,6 +176,9 @@ func TestC13_Restart(t *testing.T) {
 		}
 		if viaCommit {
 			labels = append(labels, "saved-by-commit")
+		}
+		if aimedSave {
+			labels = append(labels, "saved-behind-a-refused-configuration-proposal")
 		}
 		rec.Case(fmt.Sprintf("%s|save@%d", c.DescString(), s), s < c.Height && votes, labels...)
 	})
